@@ -570,13 +570,20 @@ fn json_value() -> impl Strategy<Value = Value> {
         // serde_json (without its `float_roundtrip` feature, as built here) parses some decimal
         // texts 1 ULP off; such numbers cannot survive *any* JSON text channel, which is not a
         // store property: keep only floats that survive text encoding in the harness itself.
+        // (by construction, not by rejection: an unsafe float is replaced by what its text form parses to)
         any::<f64>()
-            .prop_filter("finite and text-roundtrip-safe", |f| {
-                f.is_finite()
-                    && serde_json::from_str::<Value>(&serde_json::to_string(&Value::from(*f)).unwrap()).ok()
-                        == Some(Value::from(*f))
-            })
-            .prop_map(Value::from),
+            .prop_map(|f| {
+                let mut f = if f.is_finite() { f } else { 0.5 };
+                for _ in 0..4 {
+                    let back = serde_json::from_str::<Value>(&serde_json::to_string(&Value::from(f)).unwrap()).ok().and_then(|v| v.as_f64());
+                    match back {
+                        Some(b) if b == f => return Value::from(f),
+                        Some(b) if b.is_finite() => f = b,
+                        _ => break,
+                    }
+                }
+                Value::from(0.5f64)
+            }),
         prop_oneof![
             Just(0.1f64),
             Just(-0.0f64),
